@@ -75,6 +75,8 @@ func (neighborhood *Neighborhood) Incentive(targetValue string) {
 }
 
 func (neighborhood *Neighborhood) Senders() []application.Sender {
+	neighborhood.sendersMutex.RLock()
+	defer neighborhood.sendersMutex.RUnlock()
 	return neighborhood.senders
 }
 
